@@ -1185,3 +1185,22 @@ k_frontend_new_declared_totals!(k_frontend_new_bps0, true, 2, 0);
 
 // FlacStreamWriter::write with more than 65535 samples per channel (InvalidBlockSize): built with a shape-only frame stub and removed --
 // everything behind Frame::resize runs CBMC out of memory even for a concrete length (same wall as the mono instances above).
+
+// ------------------------------------------------------------------ autocorrelate: every LPC order the options admit is accepted (C15)
+// contract: requires 1 <= max_lpc_order <= 32 (exactly what Options::max_lpc_order admits, K-options_setters);
+//   ensures no panic, min(order + 1, n) lags, lag 0 first
+#[kani::proof]
+#[kani::unwind(4)]
+pub(crate) fn k_autocorrelate_accepts_documented_orders() {
+    let order: u8 = kani::any();
+    kani::assume(order >= 1 && order <= 32);
+    // whole numbers as samples: the float sums are then exact, and NaN/inf stay out of the picture
+    let a: i8 = kani::any();
+    let b: i8 = kani::any();
+    let w = [a as f64, b as f64];
+    let n: usize = if kani::any() { 1 } else { 2 };
+    let r = autocorrelate(&w[..n], NonZero::new(order).unwrap());
+    vk_assert!(r.len() == n, "autocorrelate yields min(order + 1, samples) lags for every order the options admit (1..=32)");
+    let e0 = (a as i32 * a as i32 + if n > 1 { b as i32 * b as i32 } else { 0 }) as f64;
+    vk_assert!(r[0] == e0, "lag 0 is the energy of the window");
+}
